@@ -7,6 +7,7 @@ import (
 	"errors"
 	"reflect"
 	"strings"
+	"time"
 )
 
 var errShort = errors.New("short")
@@ -288,4 +289,85 @@ func GoodHook() func(f, t reflect.Type, data any) (any, error) {
 		}
 		return data.(string) + "!", nil
 	}
+}
+
+// ---- N6 step progress (calendar day steps)
+
+func wantedDay(t time.Time) bool { return t.Day() == 31 }
+
+// the zone may skip a day: AddDate can land on the instant it started from
+func BadCalendarDayStep(t time.Time) time.Time {
+	for !wantedDay(t) {
+		t = t.AddDate(0, 0, 1)
+		if t.Hour() != 0 {
+			t = t.Add(time.Duration(-t.Hour()) * time.Hour)
+		}
+		if t.Day() == 1 {
+			return time.Time{}
+		}
+	}
+	return t
+}
+
+// compares the post-step time with itself / with a constant: no progress guard
+func BadGuardPostOnly(t time.Time) time.Time {
+	for !wantedDay(t) {
+		t = t.AddDate(0, 0, 1)
+		if t.Day() == t.YearDay()-400 || t.Day() == 40 {
+			for i := 0; i < 3; i++ {
+				t = t.Add(time.Hour)
+			}
+		}
+	}
+	return t
+}
+
+func GoodGuardedDayStep(t time.Time) time.Time {
+	for !wantedDay(t) {
+		prev := t
+		t = t.AddDate(0, 0, 1)
+		if t.Day() == prev.Day() {
+			t = prev
+			for t.Day() == prev.Day() {
+				t = t.Add(time.Hour)
+			}
+		}
+	}
+	return t
+}
+
+func advanced(prev, next time.Time) bool { return next.After(prev) }
+
+func GoodGuardInHelper(t time.Time) time.Time {
+	for !wantedDay(t) {
+		prev := t
+		t = time.Date(t.Year(), t.Month(), t.Day()+1, 0, 0, 0, 0, t.Location())
+		if !advanced(prev, t) {
+			return time.Time{}
+		}
+	}
+	return t
+}
+
+func GoodAbsoluteStep(t time.Time) time.Time {
+	for !wantedDay(t) {
+		t = t.Add(24 * time.Hour)
+		t = t.Add(-time.Duration(t.Hour()) * time.Hour)
+	}
+	return t
+}
+
+func GoodMonthStep(t time.Time) time.Time {
+	for t.Month() != time.March {
+		t = t.AddDate(0, 1, 0)
+	}
+	return t
+}
+
+func GoodUTCDayStep(t time.Time) time.Time {
+	u := t.UTC()
+	for !wantedDay(u) {
+		u = u.AddDate(0, 0, 1)
+	}
+	return u
 }
